@@ -26,3 +26,41 @@ func Watchdog(d time.Duration, fn func()) (timedOut bool, dump string) {
 		return true, string(buf[:n])
 	}
 }
+
+// StallOracle runs fn on its own goroutine and polls probe once a second.
+// probe returns a progress counter and whether work is outstanding while
+// nothing is running (no user code active, yet not everything that was
+// started has completed).  If that holds with an unchanged counter on secs
+// consecutive polls, the run is reported as stalled: the returned outcome
+// carries a violation with what() and a goroutine dump, and fn's goroutine is
+// leaked.  A run that is merely slow keeps moving its counter and is waited
+// for.  This is a wall-clock judgement; secs must be orders of magnitude
+// above the duration of a normal run.
+func StallOracle(fn func() *Outcome, probe func() (progress int64, outstandingAndIdle bool), secs int, what func() string) *Outcome {
+	done := make(chan *Outcome, 1)
+	go func() { done <- fn() }()
+	tick := time.NewTicker(time.Second)
+	defer tick.Stop()
+	last, stable := int64(-1), 0
+	for {
+		select {
+		case o := <-done:
+			return o
+		case <-tick.C:
+			p, stuck := probe()
+			if stuck && p == last {
+				stable++
+			} else {
+				stable = 0
+			}
+			last = p
+			if stable >= secs {
+				buf := make([]byte, 1<<16)
+				buf = buf[:runtime.Stack(buf, true)]
+				o := &Outcome{}
+				o.Failf("", "%s; nothing has moved for %d s; goroutines:\n%s", what(), secs, buf)
+				return o
+			}
+		}
+	}
+}
